@@ -66,6 +66,19 @@ func faultEnumerate(e *Engine, base Tx, label string) {
 	}
 	rep := e.Exec(Tx{Msgs: base.Msgs, Note: "C14 " + label + " unfaulted"})
 	rc.Cov.Cell("C14_base", fmt.Sprintf("%s/n=%d/unfaulted-ok=%v", label, n, rep.OK))
+	// "after the rollback ... used nonces are exactly as before": the same transaction, now unfaulted, is judged
+	// by the model on the unchanged state; a rejection here although no dependency failed means a trace was left
+	depFailed := false
+	for _, d := range rep.Deps {
+		if d.Seq >= 0 && d.Err != "" {
+			depFailed = true
+		}
+	}
+	rc.Cov.Assert("C14.retry-after-rollback")
+	if !rep.OK && !depFailed && (rep.TxExp == DepDependent || rep.TxExp == MustSucceed) {
+		e.viol([]string{"C14"}, "all-or-nothing", "C14:retry-after-rollback-rejected:"+label,
+			fmt.Sprintf("%s was rolled back under injected faults and is now rejected although nothing fails: %s", label, trunc(rep.Res.Log, 300)), e.caseOf(&Tx{Msgs: base.Msgs}, ""))
+	}
 }
 
 func runC14(rc *RunCtx) {
